@@ -18,7 +18,7 @@ from vlib import env
 from vlib.cassettes import open_box
 from vlib.programs import Built, World, Journal, describe, playback_function_for, call_outcome, outcome_teq, canon, clone, Outcome
 from vlib.spies import SpyCassette
-from vlib.values import Obj, Obj2, teq, in_domain, fresh
+from vlib.values import recording_in_domain, Obj, Obj2, teq, in_domain, fresh
 
 PROPERTY = 'C06'
 LEVEL = 'exploration'
@@ -303,7 +303,7 @@ def part_a_case(ctx, seed):
             ctx.violation('call-set program not saved exactly once', w)
             return
         ro = spy.recordings[saves[0][1]]
-        if not (in_domain({'recording_data': ro.recording_data, 'recording_metadata': ro.recording_metadata})):
+        if not recording_in_domain(ro.recording_data, ro.recording_metadata):
             ctx.count('recordings_out_of_serializer_domain')
             return
         present = {}
